@@ -18,6 +18,7 @@ func (e *Engine) newRun(name string, ct *Contract) *FnRun {
 	if ct != nil {
 		r.bv = ct.Arith == "bv"
 		r.wraps = ct.Opts["wraps"] != ""
+		r.contents = ct.Opts["contents"] != ""
 		r.linear = ct.Opts["linear"] != "" || len(e.cs.Linear) > 0 && ct.Opts["nolinear"] == ""
 	}
 	return r
@@ -93,6 +94,7 @@ func (e *Engine) verifyFunc(fn *ssa.Function, ct *Contract) (r *FnRun) {
 		}
 		c := r.newCell(st, pt.Elem(), fv.Name())
 		c.escaped = false
+		c.freevar = true
 		st.cells[c] = r.freshVal(st, pt.Elem(), "fv_"+fv.Name())
 		fr.vals[fv] = PtrVal{Kind: pkCell, Cell: c, Elem: pt.Elem()}
 		fr.env[fv.Name()] = st.cells[c]
@@ -116,6 +118,24 @@ func (e *Engine) verifyFunc(fn *ssa.Function, ct *Contract) (r *FnRun) {
 				if !borrowed {
 					r.linearResults(st, []Val{fr.vals[p]}, []types.Type{p.Type()}, "entry", "parameter "+p.Name())
 				}
+			}
+		}
+	}
+	if r.linear {
+		// a closure owns the linear resources it captured
+		for _, fv := range fn.FreeVars {
+			pt := fv.Type().(*types.Pointer)
+			if !r.isLinearType(pt.Elem()) {
+				continue
+			}
+			borrowed := false
+			for _, b := range ct.Borrows {
+				if b == fv.Name() {
+					borrowed = true
+				}
+			}
+			if !borrowed {
+				r.linearResults(st, []Val{fr.env[fv.Name()]}, []types.Type{pt.Elem()}, "entry", "captured "+fv.Name())
 			}
 		}
 	}
